@@ -32,15 +32,16 @@ import (
 )
 
 type runSpec struct {
-	name   string
-	pkg    string // package dir relative to the module (default: the property's)
-	test   string // -test.run regexp
-	race   bool
-	instr  bool // map the race-annotated spinlock.go into the overlay
-	calib  bool // a calibration run: race reports => race facet inconclusive
-	tiers  string
-	shards int // thorough shards (quick: min(shards,4))
-	env    []string
+	name    string
+	pkg     string // package dir relative to the module (default: the property's)
+	test    string // -test.run regexp
+	race    bool
+	instr   bool // map the race-annotated spinlock.go into the overlay
+	calib   bool // a calibration run: race reports => race facet inconclusive
+	tiers   string
+	shards  int    // thorough shards (quick: min(shards,4))
+	gcflags string // extra argument for `go test -c` (e.g. -gcflags=<pkg>=-d=zerocopy=0)
+	env     []string
 }
 
 type prop struct {
@@ -184,6 +185,9 @@ func buildTest(ctx *context, rs runSpec) (bin string, errOut string) {
 	args := []string{"test", "-c", "-vet=off", "-tags", "verif", "-overlay", ov, "-o", bin}
 	if rs.race {
 		args = append(args, "-race")
+	}
+	if rs.gcflags != "" {
+		args = append(args, rs.gcflags)
 	}
 	args = append(args, "./"+rs.pkgOr(ctx.p))
 	cmd := exec.Command("go", args...)
